@@ -255,6 +255,11 @@ def _cat() -> List[Edit]:
         E("C20", "keep-version-tuple-call", "type_evaluation.py", "                    left_operand = sys.version_info\n", "                    left_operand = tuple(sys.version_info)\n", "KEEP"),
         E("C20", "varmaps-union-of-keys", "type_evaluation.py", "    keys = set.intersection(*[set(m) for m in varmaps])", "    keys = set().union(*varmaps)", "BREAK", "absent-is-not-never"),
         E("C20", "keep-varmaps-intersection-loop", "type_evaluation.py", "    keys = set.intersection(*[set(m) for m in varmaps])", "    keys = set(varmaps[0])\n    for m in varmaps[1:]:\n        keys &= set(m)", "KEEP"),
+        E("C05", "extra-keywords-skipped-when-star-kwargs-used", "signature.py", "        if not extra_keywords_consumed:\n", "        if not star_kwargs_consumed:\n", "BREAK", "star-accept::no-expansion-binds"),
+        E("C05", "keyword-does-not-end-star-args", "signature.py", "                    star_args_exhausted = True\n", "                    if not star_args_consumed:\n                        star_args_exhausted = True\n", "BREAK", "star-accept::no-expansion-binds"),
+        E("C05", "keyword-next-to-star-args-rejected-again", "signature.py", "                elif (\n                    actual_args.star_args is not None\n                    and not star_args_exhausted\n                    and param.name not in actual_args.keywords\n                ):\n", "                elif actual_args.star_args is not None and param.name in actual_args.keywords:\n                    self.show_call_error(\"both\", ctx)\n                    return None\n                elif (\n                    actual_args.star_args is not None\n                    and not star_args_exhausted\n                ):\n", "BREAK", "star-reject::both"),
+        E("C05", "kwonly-missing-accepted-with-star-args", "signature.py", "                elif param.default is not None:\n                    bound_args[param.name] = DEFAULT, Composite(param.default)\n                elif actual_args.ellipsis:\n                    bound_args[param.name] = DEFAULT, ELLIPSIS_COMPOSITE\n                else:\n                    self.show_call_error(\n                        f\"Missing required argument '{param.name}'\", ctx\n                    )\n                    return None\n            elif param.kind is ParameterKind.VAR_POSITIONAL:", "                elif param.default is not None or actual_args.star_args is not None:\n                    bound_args[param.name] = DEFAULT, Composite(param.default)\n                elif actual_args.ellipsis:\n                    bound_args[param.name] = DEFAULT, ELLIPSIS_COMPOSITE\n                else:\n                    self.show_call_error(\n                        f\"Missing required argument '{param.name}'\", ctx\n                    )\n                    return None\n            elif param.kind is ParameterKind.VAR_POSITIONAL:", "BREAK", "star-accept::no-expansion-binds"),
+        E("C05", "keep-rename-exhausted-flag", "signature.py", "star_args_exhausted", "star_args_ended", "KEEPALL"),
         E("C16", "keep-reversed-sorted", "node_visitor.py", "lines_to_remove = sorted(lines_to_remove, reverse=True)", "lines_to_remove = list(reversed(sorted(lines_to_remove)))", "KEEP"),
         E("C17", "keep-regex-class-order", "format_strings.py", "(?P<conversion_type>[diouxXeEfFgGcrs%ba])", "(?P<conversion_type>[abcdeEfFgGiorsuxX%])", "KEEP"),
         E("C18", "keep-sort-key-via-locals", "options.py", "        return (\n            not self.from_command_line,  # command line options first\n            self.priority,  # lower priority number first\n            -len(self.applicable_to),  # longest options first\n        )", "        return (\n            not self.from_command_line,\n            self.priority,\n            -len(self.applicable_to),\n        )", "KEEP"),
@@ -281,7 +286,11 @@ def _run_one(edit: Edit, src_root: str) -> Tuple[Edit, str, str]:
         src = f.read()
     if src.count(edit.old) < 1:
         return edit, "skip", "anchor text not present in the tree"
-    new_src = src.replace(edit.old, edit.new, 1)
+    if edit.kind == "KEEPALL":  # behaviour-preserving rename of every occurrence
+        new_src = src.replace(edit.old, edit.new)
+        edit = Edit(edit.prop, edit.name, edit.file, edit.old, edit.new, "KEEP", edit.expect, edit.count)
+    else:
+        new_src = src.replace(edit.old, edit.new, 1)
     try:
         compile(new_src, path, "exec")
     except SyntaxError as e:
@@ -330,7 +339,7 @@ def run_selftest(prop: str) -> Dict[str, object]:
     return {
         "edits": len(edits),
         "detected": sum(1 for r in results if r["kind"] == "BREAK" and r["verdict"] == "ok"),
-        "silent": sum(1 for r in results if r["kind"] in ("KEEP", "NOALARM") and r["verdict"] == "ok"),
+        "silent": sum(1 for r in results if r["kind"] in ("KEEP", "KEEPALL", "NOALARM") and r["verdict"] == "ok"),
         "skipped": sum(1 for r in results if r["verdict"] == "skip"),
         "failed": [r for r in results if r["verdict"] == "FAIL"],
         "results": results,
